@@ -10,8 +10,9 @@ import json, os, shutil, subprocess, sys, tempfile, glob, re
 pid = sys.argv[1]
 checks = sys.argv[2:] or [pid]
 tier = os.environ.get("SEED_TIER", "quick")
-src = "/tmp/seed_%s_out" % pid
-dst = "/verif/seeded/%s" % pid
+rnd = os.environ.get("SEED_ROUND", "1")
+src = "/tmp/seed_%s_out" % pid if rnd == "1" else "/tmp/seed%s_%s_out" % (rnd, pid)
+dst = "/verif/seeded/%s" % pid if rnd == "1" else "/verif/seeded/%s_r%s" % (pid, rnd)
 PY = "/venv/bin/python"
 
 
